@@ -248,7 +248,7 @@ func c15OpenFresh(dir string) (*rdb.RDB, error) {
 }
 
 func runC15(r *report.Run) {
-	r.SetRule("histories of Add/Del/ExecuteBatch against a real RocksDB store (rdb.NewRDB in a scratch directory, each history in its own key namespace) compared after every step with a map-of-lists model by reading every key of the alphabet (ForEach + Find): exhaustive single-op histories up to a length bound over keys {\"\",a,ab} x values {\"\",x,xy,x\\0}; every 2-op batch after every 1-op prefix; seeded random long histories with batches of 1-6 ops, duplicated keys, values up to 70 kB and values that are prefixes of each other; backup->restore dump equality; concurrent clients checked per key with porcupine. non-trivial = history containing a Del of a present value or a batch; distinct by content")
+	r.SetRule("histories of Add/Del/ExecuteBatch against a real RocksDB store (rdb.NewRDB in a scratch directory, each history in its own key namespace) compared after every step with a map-of-lists model by reading every key of the alphabet (ForEach + Find): exhaustive single-op histories up to a length bound over keys {\"\",a,ab} x values {\"\",x,xy,x\\0}; every 2-op batch after every 1-op prefix; seeded random long histories with batches of 1-6 ops, duplicated keys, values up to 70 kB and values that are prefixes of each other; backup->restore dump equality, also after the history went on and 1-3 further backups were taken into the same backup directory; concurrent clients checked per key with porcupine. non-trivial = history containing a Del of a present value or a batch; distinct by content")
 	r.Assume("ordered comparison except for keys that received >=2 additions inside one batch (the batch sorts with an unstable sort, the statement promises a multiset there)")
 	base := filepath.Join(harness.Scratch(), "c15")
 	db, err := c15OpenFresh(filepath.Join(base, "main"))
@@ -393,90 +393,105 @@ func runC15(r *report.Run) {
 }
 
 func c15Backup(r *report.Run, base string, rng *rand.Rand) {
-	for round := 0; round < r.Pick(3, 20); round++ {
+	for round := 0; round < r.Pick(4, 20); round++ {
 		dir := filepath.Join(base, fmt.Sprintf("bk-src-%d", round))
-		db, err := c15OpenFresh(dir)
-		if err != nil {
-			r.Inconclusive(err.Error())
-			return
-		}
-		model := harness.Dump{}
-		n := 1 + rng.Intn(400)
-		if round == 0 {
-			n = 0 // empty store
-		}
-		for i := 0; i < n; i++ {
-			k := fmt.Sprintf("k%d", rng.Intn(n/3+1))
-			if rng.Intn(20) == 0 {
-				k = ""
-			}
-			v := fmt.Sprintf("v%d-%s", i, strings.Repeat("p", rng.Intn(50)))
-			if err := db.Add([]byte(k), []byte(v)); err != nil {
-				r.Violation("", "Add: "+err.Error(), nil)
-			}
-			model[k] = append(model[k], v)
-		}
-		// history continues: delete a few
-		for k, vs := range model {
-			if rng.Intn(4) == 0 {
-				v := vs[rng.Intn(len(vs))]
-				if err := db.Del([]byte(k), []byte(v)); err != nil {
-					r.Violation("", "Del of present value: "+err.Error(), nil)
-				}
-				for i, x := range vs {
-					if x == v {
-						vs = append(vs[:i:i], vs[i+1:]...)
-						break
-					}
-				}
-				if len(vs) == 0 {
-					delete(model, k)
-				} else {
-					model[k] = vs
-				}
-			}
-		}
-		if err := db.Close(); err != nil {
-			r.Violation("", "Close: "+err.Error(), nil)
-		}
-		r.Eval(1)
 		bdir := filepath.Join(base, fmt.Sprintf("bk-%d", round))
-		rdir := filepath.Join(base, fmt.Sprintf("bk-restored-%d", round))
-		os.MkdirAll(bdir, 0o755)
-		os.MkdirAll(rdir, 0o755)
-		if err := rdb.Backup(dir, bdir); err != nil {
-			r.Violation("", fmt.Sprintf("Backup of a store with %d keys failed: %v", len(model), err), map[string]int{"round": round})
-			continue
-		}
-		if err := rdb.Restore(rdir, bdir); err != nil {
-			r.Violation("", fmt.Sprintf("Restore failed: %v", err), map[string]int{"round": round})
-			continue
-		}
-		src, err1 := harness.DumpRDB(dir)
-		dst, err2 := harness.DumpRDB(rdir)
-		if err1 != nil || err2 != nil {
-			r.Violation("", fmt.Sprintf("dump after backup/restore: %v %v", err1, err2), nil)
-			continue
-		}
-		if d := harness.DiffMultiset(src, model); d != "" {
-			r.Violation("", "store differs from the model before backup: "+d, nil)
-		}
-		if d := harness.DiffMultiset(dst, src); d != "" {
-			r.Violation("", "restored store differs from the source: "+d, map[string]int{"round": round, "keys": len(model)})
-		}
-		for k := range model {
-			for i := range model[k] {
-				if i < len(dst[k]) && dst[k][i] != model[k][i] {
-					r.Violation("", fmt.Sprintf("restored store: key %q value order differs", k), nil)
-				}
-			}
-		}
-		r.Count("backup_restore_rounds", 1)
-		r.Count("backup_keys", int64(len(model)))
-		r.Nontrivial(fmt.Sprintf("backup-%d-%d", round, len(model)))
 		os.RemoveAll(dir)
 		os.RemoveAll(bdir)
-		os.RemoveAll(rdir)
+		os.MkdirAll(dir, 0o755)
+		os.MkdirAll(bdir, 0o755)
+		model := harness.Dump{}
+		serial := 0
+		// the history goes on between backups: every generation is backed up into the SAME backup directory and a
+		// restore must give the store as of the latest backup
+		gens := 1 + round%4
+		for g := 0; g < gens; g++ {
+			db, err := rdb.NewRDB(dir)
+			if err != nil {
+				r.Inconclusive(err.Error())
+				return
+			}
+			n := 1 + rng.Intn(400)
+			if round == 0 {
+				n = 0 // empty store
+			}
+			for i := 0; i < n; i++ {
+				k := fmt.Sprintf("k%d", rng.Intn(n/3+1))
+				if rng.Intn(20) == 0 {
+					k = ""
+				}
+				serial++
+				v := fmt.Sprintf("v%d-%s", serial, strings.Repeat("p", rng.Intn(50)))
+				if err := db.Add([]byte(k), []byte(v)); err != nil {
+					r.Violation("", "Add: "+err.Error(), nil)
+				}
+				model[k] = append(model[k], v)
+			}
+			// delete a few
+			for k, vs := range model {
+				if rng.Intn(4) == 0 {
+					v := vs[rng.Intn(len(vs))]
+					if err := db.Del([]byte(k), []byte(v)); err != nil {
+						r.Violation("", "Del of present value: "+err.Error(), nil)
+					}
+					for i, x := range vs {
+						if x == v {
+							vs = append(vs[:i:i], vs[i+1:]...)
+							break
+						}
+					}
+					if len(vs) == 0 {
+						delete(model, k)
+					} else {
+						model[k] = vs
+					}
+				}
+			}
+			if err := db.Close(); err != nil {
+				r.Violation("", "Close: "+err.Error(), nil)
+			}
+			r.Eval(1)
+			rdir := filepath.Join(base, fmt.Sprintf("bk-restored-%d-%d", round, g))
+			os.RemoveAll(rdir)
+			os.MkdirAll(rdir, 0o755)
+			where := map[string]int{"round": round, "generation": g, "keys": len(model)}
+			if err := rdb.Backup(dir, bdir); err != nil {
+				r.Violation("", fmt.Sprintf("Backup #%d of a store with %d keys failed: %v", g+1, len(model), err), where)
+				break
+			}
+			if err := rdb.Restore(rdir, bdir); err != nil {
+				r.Violation("", fmt.Sprintf("Restore after backup #%d failed: %v", g+1, err), where)
+				break
+			}
+			src, err1 := harness.DumpRDB(dir)
+			dst, err2 := harness.DumpRDB(rdir)
+			if err1 != nil || err2 != nil {
+				r.Violation("", fmt.Sprintf("dump after backup/restore: %v %v", err1, err2), nil)
+				break
+			}
+			if d := harness.DiffMultiset(src, model); d != "" {
+				r.Violation("", "store differs from the model before backup: "+d, nil)
+			}
+			if d := harness.DiffMultiset(dst, src); d != "" {
+				r.Violation("", fmt.Sprintf("store restored after backup #%d into the same backup directory differs from the source: %s", g+1, d), where)
+			}
+			for k := range model {
+				for i := range model[k] {
+					if i < len(dst[k]) && dst[k][i] != model[k][i] {
+						r.Violation("", fmt.Sprintf("restored store: key %q value order differs", k), nil)
+					}
+				}
+			}
+			r.Count("backup_restore_rounds", 1)
+			if g > 0 {
+				r.Count("restores_after_a_later_backup_into_the_same_directory", 1)
+			}
+			r.Count("backup_keys", int64(len(model)))
+			r.Nontrivial(fmt.Sprintf("backup-%d-%d-%d", round, g, len(model)))
+			os.RemoveAll(rdir)
+		}
+		os.RemoveAll(dir)
+		os.RemoveAll(bdir)
 	}
 }
 
